@@ -1,13 +1,25 @@
 package main
 
 import (
+	"bytes"
+	"compress/flate"
+	"fmt"
 	"io"
+	"io/ioutil"
+
+	"github.com/gobwas/ws/wsflate"
 
 	"github.com/gobwas/ws/wsutil"
 )
 
 func init() {
 	replayers["U8R"] = func(c *ctx, in []string) { u8r(c, unhx(in[0]), in[1], in[2]) }
+	replayers["FWR"] = func(c *ctx, in []string) {
+		var a, b int
+		fmt.Sscan(in[2], &a)
+		fmt.Sscan(in[3], &b)
+		fwr(c, unhx(in[0]), unhx(in[1]), a, b)
+	}
 	replayers["U8RS"] = func(c *ctx, in []string) { u8rs(c, unhx(in[0]), unhx(in[1]), in[2]) }
 	runC18R = runC18Rimpl
 }
@@ -59,6 +71,52 @@ func u8rs(c *ctx, before, after []byte, bufs string) {
 		b2i(f0v), f0a, hx(fo), fe, b2i(f.Valid()), f.Accepted(), hx(x[:xn]), hx(y[:yn]))
 }
 
+// FWR: wsflate.Writer / Reader reused through Reset (optionally after a destination error) vs fresh ones
+func fwr(c *ctx, msg1, msg2 []byte, failAt int, level int) {
+	ctor := func(w io.Writer) wsflate.Compressor { f, _ := flate.NewWriter(w, level); return f }
+	run := func(w *wsflate.Writer, d *recWriter, msg []byte) string {
+		n, e1 := w.Write(msg)
+		e2 := w.Flush()
+		return fmt.Sprintf("%d.%s.%s.%s.%s", n, werrClass(e1), werrClass(e2), werrClass(w.Err()), hx(d.all()))
+	}
+	d1 := newRecWriter()
+	d1.failAt = failAt
+	a := wsflate.NewWriter(d1, ctor)
+	a.Write(msg1)
+	a.Flush()
+	dA := newRecWriter()
+	a.Reset(dA)
+	ra := run(a, dA, msg2)
+	dB := newRecWriter()
+	b := wsflate.NewWriter(dB, ctor)
+	rb := run(b, dB, msg2)
+	// reader: msg1's compressed bytes truncated (error), Reset, msg2's compressed bytes
+	dctor := func(r io.Reader) wsflate.Decompressor { return flate.NewReader(r) }
+	comp := func(m []byte) []byte {
+		var buf bytes.Buffer
+		w := wsflate.NewWriter(&buf, ctor)
+		w.Write(m)
+		w.Flush()
+		return buf.Bytes()
+	}
+	c1, c2 := comp(msg1), comp(msg2)
+	if len(c1) > 2 {
+		c1 = c1[:len(c1)/2]
+	}
+	ra2, rb2 := "", ""
+	{
+		r := wsflate.NewReader(bytes.NewReader(c1), dctor)
+		io.Copy(ioutil.Discard, r)
+		r.Reset(newChunkReader(c2, "r3", "eof"))
+		out, err := ioutil.ReadAll(r)
+		ra2 = fmt.Sprintf("%s.%s.%s", hx(out), readErrClass(err), readErrClass(r.Err()))
+		f := wsflate.NewReader(newChunkReader(c2, "r3", "eof"), dctor)
+		out2, err2 := ioutil.ReadAll(f)
+		rb2 = fmt.Sprintf("%s.%s.%s", hx(out2), readErrClass(err2), readErrClass(f.Err()))
+	}
+	c.emit("FWR %s %s %d %d -> %s %s %s %s", hx(msg1), hx(msg2), failAt, level, ra, rb, ra2, rb2)
+}
+
 func runC18Rimpl(c *ctx) {
 	n := 150
 	if c.thor {
@@ -66,6 +124,30 @@ func runC18Rimpl(c *ctx) {
 	}
 	for i := 0; i < n; i++ {
 		u8rs(c, randUtf8ish(c, 1+c.rng.Intn(10)), randUtf8ish(c, c.rng.Intn(10)), bufSpecs[c.rng.Intn(len(bufSpecs))])
+	}
+	// message reader: a text message read partially (ending inside a multi-byte character) and
+	// discarded; the next text message must be validated from a clean state
+	texts := [][]byte{[]byte("h\xc3\xa9llo w\xc3\xb6rld \xe2\x82\xac!"), []byte("\xf0\x9f\x98\x80\xf0\x9f\x98\x80"), []byte("\xe2\x82\xac\xe2\x82\xac\xe2\x82\xac")}
+	for i := 0; i < 60; i++ {
+		side := byte(1 + i%2)
+		var fs []sframe
+		for k := 0; k < 3; k++ {
+			tx := texts[(i+k)%len(texts)]
+			cut := 1 + c.rng.Intn(len(tx)-1)
+			f1 := c.mkFrame(side, false, 1, 0)
+			f1.payload = tx[:cut]
+			f2 := c.mkFrame(side, true, 0, 0)
+			f2.payload = tx[cut:]
+			fs = append(fs, f1, f2)
+		}
+		ok := c.mkFrame(side, true, 1, 0)
+		ok.payload = []byte("ok \xc3\xa9")
+		fs = append(fs, ok)
+		runRDD(c, rcfg{state: side, chk: true, cb: 1}, fs, chunkSpecs[i%len(chunkSpecs)], "eof", []string{"1", "2", "3", "5"}[i%4], []string{"p", "pr", "ppr", "dpr"}[i%4])
+	}
+	// compression writer / reader reuse after Reset, also after an I/O error
+	for i := 0; i < 40; i++ {
+		fwr(c, c.payload(1+c.rng.Intn(400)), c.payload(c.rng.Intn(400)), []int{-1, 0, 1, -1}[i%4], []int{-1, 1, 9, 0}[(i/4)%4])
 	}
 	u8rs(c, []byte("abc"), nil, "4096")
 	u8rs(c, []byte("\xe2\x82"), []byte("\xac"), "1")
